@@ -24,6 +24,7 @@ type Spec struct {
 	Guard   int
 	Label   bool // label-reference form: operand is a placeholder of OperandLen bytes
 	PadLen  int  // placeholder length for label forms
+	Tracks  int  // effect on the tracked flags: 0 none, 1 SEP (set operand bits), 2 REP (clear operand bits)
 }
 
 func (s Spec) Len() int {
@@ -48,7 +49,9 @@ type H struct {
 // symbolic tracked flags and a 0-2 byte data prefix.
 func New() *H {
 	h := &H{}
-	h.Buf = vp.Bytes("buf", 16)
+	// the target is a window with spare capacity behind it (len 16, cap 19): the emitter must respect
+	// the window's length, not the capacity of the array it happens to be cut from
+	h.Buf = vp.Bytes("buf", 19)[:16]
 	h.orig = make([]byte, 16)
 	copy(h.orig, h.Buf)
 	h.E = asm.NewEmitter(h.Buf, vp.Choose("listing", 2) == 1)
@@ -142,6 +145,14 @@ func (h *H) Check(refused bool, s Spec) {
 	f := h.flags0
 	m8, x8 := f&asm.Accumulator8bit != 0, f&asm.IndexRegister8bit != 0
 	vp.Assert("decoder-length-agrees", w65816.Len(s.Opcode, m8, x8) == L)
+	want := h.flags0
+	switch s.Tracks {
+	case 1:
+		want |= asm.Flags(s.Operand[0])
+	case 2:
+		want &^= asm.Flags(s.Operand[0])
+	}
+	vp.Assert("tracked-widths-follow-the-instruction", e.Flags() == want)
 	vp.Reach("emitted")
 }
 
@@ -156,13 +167,15 @@ type H19 struct {
 	before   []byte
 	lab0     uint32
 	labOK0   bool
+	tail     [3]byte
 }
 
 // New19 builds an emitter over a buffer of capacity cp holding a prefix of pre bytes and one label,
 // and a twin emitter without a buffer that received the same calls.
 func New19(cp, pre int) *H19 {
 	h := &H19{Cap: cp, Pre: pre}
-	h.Buf = vp.Bytes("buf", cp)
+	h.Buf = vp.Bytes("buf", cp+3)[:cp] // a window with spare capacity behind it
+	h.tail = [3]byte{h.Buf[:cp+3][cp], h.Buf[:cp+3][cp+1], h.Buf[:cp+3][cp+2]}
 	listing := vp.Choose("listing", 2) == 1
 	h.E = asm.NewEmitter(h.Buf, listing)
 	h.Dry = asm.NewEmitter(nil, listing)
@@ -201,7 +214,9 @@ func (h *H19) Check(refusedReal, refusedDry bool, L int, guardRefuse bool) {
 		vp.Assert("dry-run-emitter-accepts", !refusedDry)
 	}
 	e := h.E
-	vp.Assert("len-never-exceeds-capacity", e.Len() <= e.Cap())
+	vp.Assert("len-never-exceeds-capacity", e.Len() <= e.Cap() && e.Cap() == h.Cap)
+	full := h.Buf[:h.Cap+3]
+	vp.Assert("nothing-written-behind-the-target-window", full[h.Cap] == h.tail[0] && full[h.Cap+1] == h.tail[1] && full[h.Cap+2] == h.tail[2])
 	if refusedReal {
 		vp.Assert("refused-len-unchanged", e.Len() == h.n0)
 		vp.Assert("refused-pc-unchanged", e.PC() == h.pc0)
